@@ -247,6 +247,7 @@ func init() {
 	Properties["C11"] = &PropertySpec{
 		Modules: st,
 		Rules: []Rule{
+			Only(R56(), `^b/write-time-field`),
 			Only(R58(), `^c/`, `^e/`),
 			R49(),
 			Only(R48(), `filestore`),
@@ -324,7 +325,7 @@ func init() {
 			Only(R54(), `Compose`, `^no-carried`),
 			R46(),
 			R08(Only8("finishCompose")),
-			Only(R11(), fns("(*GcsEmu).finishCompose", "(*GcsEmu).handleGcsCopy")),
+			Only(R11(), fns("(*GcsEmu).handleGcsCompose", "(*GcsEmu).finishCompose", "(*GcsEmu).handleGcsCopy")),
 			Only(R14(10, core.PkgGcsemu, core.PkgGcsutil), fns(composeCopyFns...)),
 			Only(R16(3, core.PkgGcsemu, core.PkgGcsutil), fns(composeCopyFns...)),
 			Only(R15(), `handleGcsCompose`, `handleGcsCopy`),
